@@ -172,7 +172,7 @@ PROPS["C02"] = {
                    "child chain consistently linked.  Family 2b (c02_closure_deflist): the real strip_line_tokens_from_deflist leaves only empty-text, term and definition children "
                    "for every LINE_* kind of the headers (1..3 children)." % len(_C02_E),
     "slice": "mmd_export_token_html/latex/beamer/memoir/opendocument/opml/itmz (the switch statements; arms' callees havocked); strip_line_tokens_from_block, strip_line_tokens_from_deflist (line-type closure, bounded shapes)",
-    "not_reached": "that the lemon automaton accepts every sequence of line kinds (%parse_failure unreachable): parser.c is generated table-driven code; "
+    "not_reached": "that the lemon automaton accepts every sequence of line kinds (%parse_failure unreachable): parser.c is generated table-driven code (a bounded acceptance unit over 1 or 2 line tokens of every kind, C02/parser_accepts.c, did not finish in 600 / 900 s and is not registered); "
                    "the line kinds a block can contain (set T of the closure units) and the writers' LINE_* arms are transcribed from parser.y / the writers by hand; "
                    "the sub-writers (*_raw, *_math, *_tt) have silent default arms and are not covered; memory safety of the arms is not claimed here",
     "trusted_base": ["cbmc/goto-cc/goto-instrument 6.11.0 (symbolic execution with constant t->type, MiniSat2)", "regex extraction of the type enum and of producers in C02/defs.py"],
